@@ -102,7 +102,23 @@ def eval_reenc(u: Universe, tc: TypeCase, aval, depth: int, max_full: int, tally
             detail = f"{type(e).__name__}: {e}"[:200]
         if ok:
             continue
-        base_sig = signature(u, "reenc", tc.msg, aval)
+        culprit = aval
+        if len(aval) > 1:
+            # attribute the failure: a field whose PLAIN reference encoding already fails to
+            # decode is the culprit (e.g. the known map<K, wrapper> defect), not the operator
+            for k in aval:
+                r1 = {k: aval[k]}
+                try:
+                    d1 = av.make_ref(u.schema, u.ref, tc.msg, r1).SerializeToString()
+                    ok1 = av.aval_eq(av.project_bp(u.schema, tc.msg, cls().parse(d1)),
+                                     av.normalize(u.schema, tc.msg, r1))
+                except Exception:
+                    ok1 = False
+                if not ok1:
+                    culprit = r1
+                    tally.inc("reenc_failures_attributed_to_plain_decode")
+                    break
+        base_sig = signature(u, "reenc", tc.msg, culprit)
         sig = ["reenc", op_class(label)] + base_sig[1:4]
         k = tuple(sig)
         if k in seen_sigs:
